@@ -1217,6 +1217,10 @@ def assemble_region(spec, bundle, out, sf, it, canary):
         a, b = hits[0]
         pre = "" if kind.startswith("ghost") else "proof "
         inserts.setdefault(a if kind.endswith("-before") else b + 1, []).append((pre + text, ("clause", cid)))
+    head = spec.opts.get("head")
+    if head:
+        # the lifted lines are the arms of a `match` inside a closure: head/tail restore the enclosing `match e {` .. `}`
+        out.emit(head.replace("~", " "), ("tmpl", spec.tmpl_line))
     emit_range(sf, out, a0, b1, inserts, replaces, where)
     tail = spec.opts.get("tail")
     if tail:
